@@ -146,28 +146,54 @@ Qed.
 Lemma script_of_origin d : script_of (erase_origin d) = script_of d.
 Proof. reflexivity. Qed.
 
-(* Two provider lists that differ only in names, with no named-edit directive: same Bind result,
-   same behaviour (the whole observation of the model). *)
-Theorem names_irrelevant te l1 l2 inv init sess :
+Lemma erase_names_pres d : erase_names (erase_presentation d) = erase_names d.
+Proof. reflexivity. Qed.
+Lemma no_directive_pres d : no_directive (erase_presentation d) = no_directive d.
+Proof. reflexivity. Qed.
+Lemma script_of_pres d : script_of (erase_presentation d) = script_of d.
+Proof. reflexivity. Qed.
+
+(* Two provider lists that differ only in how the providers are presented - their names, and
+   whether they are Go functions or Reflective values with the same signature - with no named-edit
+   directive: same Bind result, same plan, same behaviour (the whole observation of the model). *)
+Theorem presentation_irrelevant te l1 l2 inv init sess :
   forallb no_directive l1 = true ->
-  map erase_origin l1 = map erase_origin l2 ->
+  map erase_presentation l1 = map erase_presentation l2 ->
   model_run (mkCase te l1 inv init sess) = model_run (mkCase te l2 inv init sess).
 Proof.
   intros Hd He.
   assert (Hd2 : forallb no_directive l2 = true).
-  { rewrite <- (forallb_via no_directive erase_origin no_directive l1 l2 no_directive_origin He). exact Hd. }
+  { rewrite <- (forallb_via no_directive erase_presentation no_directive l1 l2 no_directive_pres He). exact Hd. }
   assert (Ha : assemble (mkCase te l1 inv init sess) = assemble (mkCase te l2 inv init sess)).
   { unfold assemble. cbn [bc_te bc_provs bc_invoke bc_init].
     rewrite (apply_edits_no_directive l1 Hd), (apply_edits_no_directive l2 Hd2).
-    rewrite (map_via erase_names erase_origin erase_names l1 l2 erase_names_origin He). reflexivity. }
+    rewrite (map_via erase_names erase_presentation erase_names l1 l2 erase_names_pres He). reflexivity. }
   assert (Hp : plan_of (mkCase te l1 inv init sess) = plan_of (mkCase te l2 inv init sess)).
   { unfold plan_of. rewrite Ha. reflexivity. }
   assert (Hb : bind_chain (mkCase te l1 inv init sess) = bind_chain (mkCase te l2 inv init sess)).
   { unfold bind_chain. rewrite Hp. reflexivity. }
   assert (Hs : scripts_of (mkCase te l1 inv init sess) = scripts_of (mkCase te l2 inv init sess)).
   { unfold scripts_of. cbn [bc_te bc_provs bc_invoke bc_init].
-    rewrite (map_via script_of erase_origin script_of l1 l2 script_of_origin He). reflexivity. }
+    rewrite (map_via script_of erase_presentation script_of l1 l2 script_of_pres He). reflexivity. }
   unfold model_run. rewrite Hb, Hs. reflexivity.
+Qed.
+
+Theorem names_irrelevant te l1 l2 inv init sess :
+  forallb no_directive l1 = true ->
+  map erase_origin l1 = map erase_origin l2 ->
+  model_run (mkCase te l1 inv init sess) = model_run (mkCase te l2 inv init sess).
+Proof.
+  intros Hd He. apply presentation_irrelevant; [exact Hd|].
+  apply (map_via erase_presentation erase_origin (set_reflective false) l1 l2); [reflexivity|exact He].
+Qed.
+
+(* replacing any subset of the function providers by Reflective equivalents changes nothing *)
+Theorem reflective_irrelevant te l (mask : pdesc -> bool) inv init sess :
+  forallb no_directive l = true ->
+  model_run (mkCase te (map (fun d => set_reflective (mask d) d) l) inv init sess) = model_run (mkCase te l inv init sess).
+Proof.
+  intros Hd. symmetry. apply presentation_irrelevant; [exact Hd|].
+  rewrite map_map. apply map_ext. intros d. reflexivity.
 Qed.
 
 (* any two ways of building a collection with the same leaves give the same chain *)
